@@ -85,7 +85,7 @@ CHECKS = {
     "C05": {
         "runs": [dict(ACTION, entries=["H05Order"], limits={"max_instrs": 20000000, "max_decisions": 2000}),
                  dict(RELUTIL, entries=["H08SplitOrder"], bounds_quick={"docindex": 9999}, bounds_thorough={"docindex": 99999}),
-                 dict(pkg="./pkg/engine", files=["pkg/engine/h_c05_hermetic.go"], entries=["H05Hermetic", "H05Files"], bounds_quick={"fnamelen": 3}, bounds_thorough={"fnamelen": 5}),
+                 dict(pkg="./pkg/engine", files=["pkg/engine/h_c05_hermetic.go"], entries=["H05Hermetic", "H05Files", "H05Glob"], bounds_quick={"fnamelen": 3, "globlen": 3}, bounds_thorough={"fnamelen": 5, "globlen": 4}),
                  dict(pkg="./pkg/engine", files=["pkg/engine/h_c05_renderorder.go"], entries=["H05RenderOrder"])],
         "bounds": {}, "assumptions": [],
     },
